@@ -641,7 +641,30 @@ pub struct Step {
 pub fn gen_change(rng: &mut Rng, w: &Workspace) -> Step {
     let mut n = w.clone();
     let mods = w.module_files();
-    let kind: &'static str = match rng.below(16) {
+    let kind: &'static str = match rng.below(17) {
+        16 if !mods.is_empty() => {
+            // a second file claiming an existing module name in the same package
+            // (src/a.gleam next to test/a.gleam): legal for the server, must resolve the same
+            // way every time
+            let f = *rng.pick(&mods);
+            let path = w.files[&f].0.clone();
+            let twin = if path.contains("/src/") {
+                path.replacen("/src/", "/test/", 1)
+            } else {
+                path.replacen("/test/", "/src/", 1)
+            };
+            if twin != path && !w.files.values().any(|(p, _)| *p == twin) {
+                let id = w.files.keys().max().map_or(0, |m| m + 1);
+                let (text, _) = gen_module(rng, &[]);
+                if let Some(r) = n.roots.iter_mut().find(|r| r.files.contains(&f)) {
+                    r.files.push(id);
+                    n.files.insert(id, (twin, text));
+                }
+                "file.add_duplicate_module"
+            } else {
+                "none"
+            }
+        }
         0..=7 if !mods.is_empty() => {
             let f = *rng.pick(&mods);
             let (text, kind) = mutate(rng, &w.files[&f].1);
